@@ -40,6 +40,12 @@ Theorem C27_nothing_foreign : forall v ms m, In m (analyse v ms) -> m_own m = tr
 Proof. exact nothing_foreign. Qed.
 Print Assumptions C27_nothing_foreign.
 
+(* a class defined in the module under test is not a builtin type (also when it derives from list,
+   dict, float, str, tuple ...): only abstractness withholds its constructor *)
+Theorem C27_ctor_withheld_own : forall a, ctor_withheld a false false = a.
+Proof. exact ctor_withheld_own. Qed.
+Print Assumptions C27_ctor_withheld_own.
+
 (* Full statement wanted:  forall v m, m_reached m = true -> m_async m = false ->
      under_test v m = eligible_member v m.
    It is FALSE for the code as it is (C27_under_test_exact_refuted): class names are never checked
